@@ -11,7 +11,8 @@ utc_times = st.datetimes(min_value=datetime.datetime(1, 1, 1), max_value=datetim
     lambda s: s.rjust(20, "0"))   # strftime drops leading zeros of years < 1000 on glibc
 
 ROLE_NAMES = ["root", "key_mgr", "pkg_mgr", "Root", "ROOT", "root.json", "key_mgr ", " key_mgr", "key-mgr",
-              "", "x", "r\u043eot", "caf\u00e9_mgr", "cafe\u0301_mgr", "\u212bngstr\u00f6m", "\u00c5ngstro\u0308m"]
+              "", "x", "r\u043eot", "caf\u00e9_mgr", "cafe\u0301_mgr", "\u212bngstr\u00f6m", "\u00c5ngstro\u0308m",
+              "{}", "{channel}", "{0}", "%s", "%(role)s", "{", "a/b", ".."]
 role_names = st.one_of(st.sampled_from(ROLE_NAMES), st.sampled_from(ROLE_NAMES[:3]), G.strings)
 
 versions = st.one_of(st.integers(1, 5), st.integers(1, 2 ** 40), st.sampled_from([1, 2, 2 ** 31, 2 ** 63, 2 ** 64, 10 ** 30]),
